@@ -3,6 +3,7 @@ SPECIFICATION Spec
 CONSTANTS
   Txs = {1, 2}
   Keys = {1, 2}
+  KsSplit = 100
   MaxOpsPerTx = 3
   Methods = {"get", "scan", "insert", "remove", "rmw"}
   SingleWriter = TRUE
